@@ -118,7 +118,13 @@ def convert_link(link):
             return None, "non-edge with %s" % (sorted(extra) or "unknown anchor")
         if latoms[anchor]["order"] != 0 or not isinstance(tattrs.get("order", 0), int):
             return None, "non-edge anchored outside the reference residue"
-        nonedges.append((anchor, {"order": tattrs.get("order", 0), "name": tattrs["atomname"]}))
+        tgt = {"order": tattrs.get("order", 0), "name": tattrs["atomname"]}
+        if "resname" in tattrs:
+            rn = _plain(tattrs["resname"])
+            if rn is None:
+                return None, "non-edge target with a residue name the reference cannot express"
+            tgt["resname"] = rn
+        nonedges.append((anchor, tgt))
     patterns = []
     for row in getattr(link, "patterns", []):
         prow = []
